@@ -361,6 +361,14 @@ def r02_6_11(ctx, run, rule_cls='R02.6', rule_lex='R02.11'):
             continue
         if not ok:
             cls_bad.append(f'{kind} produced for sign={neg} fraction={frac} exponent={exp} via {[x.split("::")[-1] for x in parsers]}')
+    # accepting paths whose result is not built as Ok(Value::Number(Number::X(..))) in the function (combinators: `.map(..)`, `.map_err(..)`,
+    # `ok_or_else`): neither their shape nor their representation is read
+    unread_ret = [s_ for (s_, kind_, _, _, _, _) in sigs if kind_ is None]
+    if unread_ret:
+        run.undecided(rule_lex, b.path, 'number-grammar', f'{len(unread_ret)} of {len(sigs)} successful returns hand back a value built by combinators this rule does not read (not Ok(Value::Number(..)) '
+                      'built in place): the set of accepted shapes is not decided', loc)
+        run.undecided(rule_cls, b.path, 'classification', 'not decided (some results are built by combinators this rule does not read)', loc)
+        return
     unread_h = sorted({o for (_, _, _, _, other, _) in sigs for o in other if o.startswith('helper:')})
     if unread_h:
         run.undecided(rule_lex, b.path, 'number-grammar', f'the number lexer calls helper(s) this rule does not know by name ({", ".join(h[7:] for h in unread_h[:4])}): '
